@@ -35,14 +35,32 @@ SCOPED = [("orm/scoping.py", "scoped_session"), ("ext/asyncio/scoping.py", "asyn
 WHOLE_DICT = {"clear", "popitem", "update", "copy", "values", "items", "keys"}
 
 
+_KEY_GETTERS: set = set()
+
+
+def _note_key_getters(ctx):
+    """one-line methods of ScopedRegistry that return self.scopefunc() (`def _key(self): return self.scopefunc()`): a
+    call of one is the scope key evaluated in this call, like the expression itself"""
+    _KEY_GETTERS.clear()
+    for name, f in ctx.index.cls(SR).methods.items():
+        body = [st for st in f.node.body if not (isinstance(st, ast.Expr) and isinstance(st.value, ast.Constant))]
+        if len(body) == 1 and isinstance(body[0], ast.Return) and body[0].value is not None \
+                and unparse(body[0].value).replace(" ", "") == "self.scopefunc()" and len(f.node.args.args) == 1 \
+                and not any(name in k.methods for k in ctx.index.subclasses(ctx.index.cls(SR))):
+            _KEY_GETTERS.add(name)
+
+
 def _is_scope_key(e, fn):
     """expression is self.scopefunc() or a local bound (only) to self.scopefunc() in fn"""
     if unparse(e).replace(" ", "") == "self.scopefunc()":
         return True
+    if isinstance(e, ast.Call) and not e.args and not e.keywords and isinstance(e.func, ast.Attribute) \
+            and isinstance(e.func.value, ast.Name) and e.func.value.id == "self" and e.func.attr in _KEY_GETTERS:
+        return True
     if isinstance(e, ast.Name):
         defs = [n.value for n in walk_local(fn) if isinstance(n, ast.Assign)
                 and any(isinstance(t, ast.Name) and t.id == e.id for t in n.targets)]
-        return bool(defs) and all(unparse(d).replace(" ", "") == "self.scopefunc()" for d in defs)
+        return bool(defs) and all(not isinstance(d, ast.Name) and _is_scope_key(d, fn) for d in defs)
     return False
 
 
@@ -106,6 +124,7 @@ def _class_forms(ctx, cls, **kw):
         desc="every use of ScopedRegistry.registry is a single-key operation whose key is self.scopefunc() evaluated in "
              "the same call; creation is the atomic setdefault(key, self.createfunc())")
 def r1(ctx):
+    _note_key_getters(ctx)
     cls = ctx.index.cls(SR)
     forms, folded = _class_forms(ctx, cls)
     for mname, f in sorted(forms.items()):
@@ -255,6 +274,7 @@ def _clear_impl_ok(f, threadlocal):
         desc="remove(): close() the current session only under registry.has(), then registry.clear() on every normal "
              "path; clear() implementations delete only the current scope's entry")
 def r3(ctx):
+    _note_key_getters(ctx)
     for rel, cname in SCOPED:
         # normal form: `registry = self.registry` is resolved, `current = registry()` / `current.close()` is read as
         # `self.registry().close()`, an extracted helper is read at its call
@@ -530,6 +550,7 @@ def _uninitialised_reads(ctx, cls, methods):
              "path; the constructor initialises every attribute the accessors read, createfunc/scopefunc from the "
              "parameters in call order")
 def r5(ctx):
+    _note_key_getters(ctx)
     for ck in (SR, TL):
         cls = ctx.index.cls(ck)
         # ---- __call__
@@ -852,3 +873,79 @@ R.mutant("benign-scoped-call-created-object-local", UC,
 R.mutant("scoped-call-setdefault-foreign-default", UC,
          sub("            return self.registry.setdefault(key, self.createfunc())  # type: ignore[no-any-return] # noqa: E501\n",
              "            return self.registry.setdefault(key, self.scopefunc())\n"), "C52-R1")
+
+# ---- robustify (rob-H1): behaviour-preserving refactorings that must stay silent, and the same shapes broken
+_CALL_OLD = ("        if kw:\n            if self.registry.has():\n                raise sa_exc.InvalidRequestError(\n"
+             "                    \"Scoped session is already present; \"\n                    \"no new arguments may be specified.\"\n"
+             "                )\n            else:\n                sess = self.session_factory(**kw)\n                self.registry.set(sess)\n"
+             "        else:\n            sess = self.registry()\n")
+
+
+def _call_new(register="            registry.set(sess)\n", test="registry.has()"):
+    return ("        registry = self.registry\n        if not kw:\n            sess = registry()\n        else:\n"
+            f"            if {test}:\n                raise sa_exc.InvalidRequestError(\n"
+            "                    \"Scoped session is already present; \"\n                    \"no new arguments may be specified.\"\n"
+            "                )\n            sess = self.session_factory(**kw)\n" + register)
+
+
+_REMOVE_OLD = "        if self.registry.has():\n            self.registry().close()\n        self.registry.clear()\n"
+_SRCALL_OLD = ("        key = self.scopefunc()\n        try:\n            return self.registry[key]  # type: ignore[no-any-return]\n"
+               "        except KeyError:\n            return self.registry.setdefault(key, self.createfunc())  # type: ignore[no-any-return] # noqa: E501\n")
+
+
+def _srcall_new(helper_body):
+    return ("        scope_key = self.scopefunc()\n        try:\n            return self.registry[scope_key]\n"
+            "        except KeyError:\n            return self._create_for_scope(scope_key)\n\n"
+            "    def _create_for_scope(self, scope_key: Any) -> _T:\n" + helper_body)
+
+
+# rfH_5: registry alias, inverted if/else on kw, dropped else after raise, registry().close() split with a named local
+R.mutant("benign-rob-call-registry-alias-inverted-kw-test", "orm/scoping.py", sub(_CALL_OLD, _call_new()), None)
+R.mutant("benign-rob-remove-registry-alias-named-session", "orm/scoping.py",
+         sub(_REMOVE_OLD, "        registry = self.registry\n        if registry.has():\n            current = registry()\n            current.close()\n"
+                          "        registry.clear()\n"), None)
+R.mutant("benign-rob-remove-early-return-when-absent", "orm/scoping.py",
+         sub(_REMOVE_OLD, "        if not self.registry.has():\n            self.registry.clear()\n            return\n"
+                          "        self.registry().close()\n        self.registry.clear()\n"), None)
+R.mutant("benign-rob-async-call-presence-in-local", "ext/asyncio/scoping.py",
+         sub("        if kw:\n            if self.registry.has():\n", "        if kw:\n            present = self.registry.has()\n            if present:\n"), None)
+R.mutant("benign-rob-init-registry-kind-inverted-none-test", "orm/scoping.py",
+         sub("        if scopefunc:\n            self.registry = ScopedRegistry(session_factory, scopefunc)\n        else:\n            self.registry = ThreadLocalRegistry(session_factory)\n",
+             "        if scopefunc is None:\n            self.registry = ThreadLocalRegistry(session_factory)\n        else:\n            self.registry = ScopedRegistry(session_factory, scopefunc)\n"),
+         None)
+R.mutant("rob-remove-alias-closes-unconditionally", "orm/scoping.py",
+         sub(_REMOVE_OLD, "        registry = self.registry\n        current = registry()\n        current.close()\n        registry.clear()\n"), "C52-R3")
+R.mutant("rob-remove-alias-closes-other-object", "orm/scoping.py",
+         sub(_REMOVE_OLD, "        registry = self.registry\n        if registry.has():\n            current = self.session_factory()\n            current.close()\n"
+                          "        registry.clear()\n"), "C52-R3")
+R.mutant("rob-call-alias-session-not-registered", "orm/scoping.py", sub(_CALL_OLD, _call_new(register="")), "C52-R6")
+R.mutant("rob-call-alias-conflict-test-negated", "orm/scoping.py", sub(_CALL_OLD, _call_new(test="not registry.has()")), "C52-R6")
+R.mutant("rob-init-registry-kind-none-test-not-inverted", "orm/scoping.py",
+         sub("        if scopefunc:\n            self.registry = ScopedRegistry(session_factory, scopefunc)\n        else:\n            self.registry = ThreadLocalRegistry(session_factory)\n",
+             "        if scopefunc is not None:\n            self.registry = ThreadLocalRegistry(session_factory)\n        else:\n            self.registry = ScopedRegistry(session_factory, scopefunc)\n"),
+         "C52-R4")
+# rfH_6: KeyError fallback of ScopedRegistry.__call__ extracted into a helper; chained assignment split
+R.mutant("benign-rob-scoped-call-create-in-helper", UC,
+         sub(_SRCALL_OLD, _srcall_new("        registry = self.registry\n        return registry.setdefault(scope_key, self.createfunc())\n")), None)
+R.mutant("benign-rob-scoped-key-getter", UC,
+         chain(sub("        return self.scopefunc() in self.registry\n", "        return self._key() in self.registry\n"),
+               sub("        self.registry[self.scopefunc()] = obj\n", "        self.registry[self._key()] = obj\n"),
+               sub("    def has(self) -> bool:\n        \"\"\"Return True if an object is present in the current scope.\"\"\"\n",
+                   "    def _key(self) -> Any:\n        return self.scopefunc()\n\n    def has(self) -> bool:\n"
+                   "        \"\"\"Return True if an object is present in the current scope.\"\"\"\n")), None)
+R.mutant("benign-rob-threadlocal-call-registry-alias", UC,
+         sub("        try:\n            return self.registry.value  # type: ignore[no-any-return]\n        except AttributeError:\n"
+             "            val = self.registry.value = self.createfunc()\n            return val\n",
+             "        slot = self.registry\n        try:\n            return slot.value\n        except AttributeError:\n"
+             "            created = self.createfunc()\n            slot.value = created\n            return created\n"), None)
+R.mutant("rob-scoped-call-helper-check-then-assign", UC,
+         sub(_SRCALL_OLD, _srcall_new("        obj = self.createfunc()\n        self.registry[scope_key] = obj\n        return obj\n")), "C52-R1")
+R.mutant("rob-scoped-call-helper-foreign-key", UC,
+         sub(_SRCALL_OLD, _srcall_new("        return self.registry.setdefault(id(self), self.createfunc())\n")), "C52-R1")
+R.mutant("rob-scoped-call-helper-returns-unstored", UC,
+         sub(_SRCALL_OLD, _srcall_new("        self.registry.setdefault(scope_key, self.createfunc())\n        return self.createfunc()\n")), "C52-R5")
+R.mutant("rob-scoped-key-getter-constant", UC,
+         chain(sub("        self.registry[self.scopefunc()] = obj\n", "        self.registry[self._key()] = obj\n"),
+               sub("    def has(self) -> bool:\n        \"\"\"Return True if an object is present in the current scope.\"\"\"\n",
+                   "    def _key(self) -> Any:\n        return None\n\n    def has(self) -> bool:\n"
+                   "        \"\"\"Return True if an object is present in the current scope.\"\"\"\n")), "C52-R1")
